@@ -257,10 +257,26 @@ func runC11Driver(c bson.D, x *Ctx) (err error) {
 	}
 	if idem {
 		// applying the same update again changes nothing and reports zero modified
-		res2, uerr2 := coll.UpdateOne(ctx, bson.D{{Key: "_id", Value: int32(1)}}, upd)
+		// (every other case with the upsert option, which is without effect
+		// on an update that matches)
+		uo := options.Update()
+		if len(marshal(upd))%2 == 0 {
+			uo.SetUpsert(true)
+			x.Class("second-application-with-upsert")
+		}
+		res2, uerr2 := coll.UpdateOne(ctx, bson.D{{Key: "_id", Value: int32(1)}}, upd, uo)
 		after2, e := findAll(coll)
 		if e != nil {
 			return e
+		}
+		if len(after2) != 2 {
+			return fmt.Errorf("second application of %s (matching, upsert option %v) left %d documents instead of 2", show(upd), uo.Upsert != nil, len(after2))
+		}
+		if uerr2 != nil && lungo.IsUniquenessError(uerr2) {
+			return fmt.Errorf("second application of %s matches the document, changes nothing and was rejected for uniqueness: %v", show(upd), uerr2)
+		}
+		if uerr2 == nil && (res2.MatchedCount != 1 || res2.UpsertedCount != 0) {
+			return fmt.Errorf("second application of %s reports MatchedCount = %d, UpsertedCount = %d; it matches the document", show(upd), res2.MatchedCount, res2.UpsertedCount)
 		}
 		if uerr2 != nil {
 			// with several paths one operator's first effect can turn another
